@@ -29,6 +29,8 @@ HARNESS = ["zz_verif_relay_test.go"]
 NREP = 40                 # re-executions of a rejected script (racy defects need the schedule again)
 COMPLETE_TIMEOUT_MS = 120000   # "complete": must exceed the per-call watchdog, so that a relay that
 WATCHDOG_MS = 30000            # waits for a consumer nobody serves is seen as blocked, not as slow
+MIXED_TIMEOUT_MS = 50          # "mixed": short enough that stalled consumers are timed out many times per
+                               # scenario, long against scheduling jitter (scenarios that saw a gap are set aside)
 SINGLE_TIMEOUT = 150           # seconds TLC may spend on one scenario's trace before it is set aside
 
 
@@ -53,7 +55,7 @@ def profiles(thorough):
             {"id": "w2", "keys": ["k1", "k2"], "auth": {"k1": 100, "k2": 200}, "mode": "stream", "sync": False, "late": True},
             {"id": "w3", "keys": ["k1"], "auth": {"k1": 150}, "mode": "stream", "sync": True, "late": False},
         ],
-        "streamers": ["s1", "s2", "s3"], "sleepy_lossy": ["s2", "s3"],
+        "streamers": ["s1", "s2", "s3"], "sleepy_lossy": ["s2", "s3"], "stalled_mixed": ["s2", "s3"],
         "subs": [["k1"], ["k2"], ["k1", "k2"]], "opensubs": [["k1", "k2"], ["k1"]],
         "maxseq": 4, "minseq": 2, "maxresub": 2,
     }
@@ -123,9 +125,12 @@ MC_Idx == %s
 MC_CloseAfter == %s
 MC_Subs == %s
 MC_OpenSubs == %s
+MC_InitConns == <<%s>>
+MC_InitSub == %s
 ====
 """ % (name, base, wkeys_def(p), auth_def(p), idx_def(p), close_after_def(p), tla_setset(p["subs"]),
-       tla_setset(p["opensubs"]))
+       tla_setset(p["opensubs"]), ", ".join('"%s"' % x for x in p.get("init_conns", [])),
+       tla_set(p.get("init_sub", [])))
 
 
 def consts(p, **kw):
@@ -141,7 +146,8 @@ def consts(p, **kw):
     )
     d.update(kw)
     lines = ["  %s = %s" % (k, v) for k, v in d.items()]
-    lines += ["  WKeys <- MC_WKeys", "  Auth <- MC_Auth", "  Idx <- MC_Idx", "  Subs <- MC_Subs", "  OpenSubs <- MC_OpenSubs"]
+    lines += ["  WKeys <- MC_WKeys", "  Auth <- MC_Auth", "  Idx <- MC_Idx", "  Subs <- MC_Subs", "  OpenSubs <- MC_OpenSubs",
+              "  InitConns <- MC_InitConns", "  InitSub <- MC_InitSub"]
     return "\n".join(lines)
 
 
@@ -225,8 +231,9 @@ def design(ctx, thorough):
     # one always-ready streamer next to TWO streamers whose consumers may stall for good, at the same
     # time: every outlet of a frame's fan-out times out on its own, the ready one gets everything and
     # writers keep going ...
-    mx = design_cast(["w1"], ["s1", "s2", "s3"], [["k2"]], k12, 3, 0)
-    go("mixed", mx, props="WritersProgress ReadyEventually OpenCompletes", deadlock=False, Ready=tla_set(["s1"]),
+    mx = design_cast(["w1"], ["s1", "s2", "s3"], [["k2"]], k12, 4 if thorough else 3, 0)
+    mx.update(init_conns=["s2", "s3", "s1"], init_sub=["k1", "k2"])   # all three connected from the start
+    go("mixed", mx, props="WritersProgress ReadyEventually", deadlock=False, Ready=tla_set(["s1"]),
        CloseModes=tla_set([]), SleepForever="TRUE")
     # ... vacuity: with one timeout budget per frame (timer not re-armed) the relay parks behind the
     # second stalled outlet: the ready streamer starves and writers block
@@ -268,8 +275,30 @@ def gen_scripts(ctx, p, n, tag):
 
 def decorate(script, rnd, mode, p=None):
     """Scheduling the model leaves open: does the dispatcher wait for a call to return before it
-    starts the next one, or how long does it pause; where the complete configuration quiesces."""
+    starts the next one, or how long does it pause; where the complete configuration quiesces;
+    mixed: where the stall-class consumers stop and resume reading."""
     script = list(script)
+    if mode == "mixed":
+        ops = decorate(script, rnd, "complete", p)
+        st = set(p["stalled_mixed"])
+        allkeys = sorted(k["id"] for k in p["keys"])
+        for o in ops:
+            if o["a"] in ("sopen", "ssub") and o["p"] in st:
+                o["ks"] = allkeys          # a stalled consumer is offered every frame
+        # one whole phase: the stall-class streamers are opened first, then ALL their consumers stop at
+        # once; everything the script does with writers and with the always-ready streamers happens
+        # while they are stopped (every frame beyond what their pipelines hold is timed out for each of
+        # them); the relay must still drain for the ready consumers (fence) before they resume; what the
+        # script does with the stall-class streamers themselves comes after that
+        sopens = [o for o in ops if o["a"] == "sopen" and o["p"] in st]
+        later = [o for o in ops if o["a"] == "sclose" and o["p"] not in st] + \
+                [o for o in ops if o["a"] != "sopen" and o["p"] in st]
+        dbc = [o for o in ops if o["a"] == "dbclose"]
+        mid = [o for o in ops if o["p"] not in st and o["a"] not in ("dbclose", "sclose")]
+        for o in sopens:
+            o["wait"], o["fence"] = True, False
+        blank = {"p": "", "ks": [], "m": "", "wait": False, "delay_us": 0}
+        return sopens + [dict(blank, a="stall", fence=False)] + mid + [dict(blank, a="unstall", fence=True)] + later + dbc
     if p:
         # two requests of a non-Sync writer back to back (both in flight inside the writer at once)
         nosync = {w["id"] for w in p["writers"] if not w["sync"]}
@@ -313,7 +342,9 @@ def harness_profile(p, mode):
     return {
         "name": p["name"], "mode": mode, "writers": p["writers"], "streamers": p["streamers"],
         "sleepy": p["sleepy_lossy"] if mode == "lossy" else [], "keys": p["keys"], "B": p["B"],
-        "outcap": p["outcap"], "timeout_ms": COMPLETE_TIMEOUT_MS if mode == "complete" else 20,
+        "stalled": p.get("stalled_mixed", []) if mode == "mixed" else [],
+        "outcap": p["outcap"],
+        "timeout_ms": {"complete": COMPLETE_TIMEOUT_MS, "lossy": 20, "mixed": MIXED_TIMEOUT_MS}[mode],
         "max_sleep_ms": 70 if mode == "lossy" else 0, "pad": p.get("pad", 0),
         "close_after": p.get("close_after", {}),
     }
@@ -363,7 +394,8 @@ RESET = {"ev": "reset", "p": "", "q": 0, "ks": [], "m": ""}
 
 
 def trace_cfg(p, mode):
-    ready = p["streamers"] if mode == "complete" else []
+    ready = {"complete": p["streamers"], "lossy": [],
+             "mixed": [x for x in p["streamers"] if x not in p.get("stalled_mixed", [])]}[mode]
     c = consts(p, WQ=1000, MaxSeq=100000, MaxResub=100000, Ready=tla_set(ready), AllowOrphan="TRUE")
     return "SPECIFICATION TSpec\nCONSTANTS\n%s\n  SyncWriters = %s\nINVARIANTS %s\nCONSTRAINT Mark\nPOSTCONDITION Accepted\nCHECK_DEADLOCK FALSE\n" % (
         c, tla_set(w["id"] for w in p["writers"] if w["sync"]), SAFETY)
@@ -385,7 +417,7 @@ def tlc_trace(ctx, p, mode, items, tag, timeout=1800):
         src = f.read()
     name = "trace_%s.ndjson" % tag
     src = src.replace("MODULE RelayTrace", "MODULE " + mod).replace('"trace.ndjson"', '"%s"' % name)
-    src = re.sub(r"\n=====+\s*$", lambda m: "\nMC_WKeys == %s\nMC_Auth == %s\nMC_Idx == %s\nMC_Subs == {}\nMC_OpenSubs == {}\n====\n" % (
+    src = re.sub(r"\n=====+\s*$", lambda m: "\nMC_WKeys == %s\nMC_Auth == %s\nMC_Idx == %s\nMC_Subs == {}\nMC_OpenSubs == {}\nMC_InitConns == <<>>\nMC_InitSub == {}\n====\n" % (
         wkeys_def(p), auth_def(p), idx_def(p)), src)
     r = ctx.tlc(AREA, mod, tag + ".cfg", workers=1, timeout=timeout, tag="tv_" + tag, expect_violation=True, heap="3g", deque=True,
                 files={name: "\n".join(lines) + "\n", tag + ".cfg": trace_cfg(p, mode), mod + ".tla": src})
@@ -567,12 +599,13 @@ def classify(p, mode, evs, idx):
         for k in W[w]["keys"]:
             if k not in ks and not maybe_unauth(w, k, a, b) and poss and all(k in K for K in poss):
                 return "missing-series", "frame (%s,%d) reached %s without its channel %s (subscribed and authorized)" % (w, q, s, k)
-    if mode == "complete":
+    if mode in ("complete", "mixed"):
+        not_ready = set(p.get("stalled_mixed", [])) if mode == "mixed" else set()
         for Q, e in enumerate(evs[:idx + 1]):
             if e["ev"] != "quiesce":
                 continue
             for s in subs:
-                if s not in sopen_ret or sclose_call.get(s, INF) < Q:
+                if s in not_ready or s not in sopen_ret or sclose_call.get(s, INF) < Q:
                     continue
                 for (w, q), (a, b) in pos.items():
                     if a < sopen_ret[s] or b is None or b > Q:
@@ -620,7 +653,11 @@ def one_config(ctx, p, mode, scripts, rnd, tag, race, cov):
             cov["mech"][k] = cov["mech"].get(k, 0) + v
         for k, v in (r.get("max_call_us") or {}).items():
             cov["max_call_us"][k] = max(cov["max_call_us"].get(k, 0), v)
-        if r["status"] == "ok":
+        if r["status"] == "ok" and mode == "mixed" and r.get("jitter", 0) > 0:
+            # the scheduler paused longer than a fraction of the short timeout: a ready consumer may
+            # legitimately have been timed out; no verdict from this scenario
+            cov["jittery"] = cov.get("jittery", 0) + 1
+        elif r["status"] == "ok":
             items.append((scn, r["events"]))
         elif r["status"] == "starved":
             raise vlib.Inconclusive("the harness process was starved (heartbeat stalled) in %s/%s scenario %d: %s" % (
@@ -629,6 +666,10 @@ def one_config(ctx, p, mode, scripts, rnd, tag, race, cov):
             errors.append((scn, r))
         elif r["status"] == "blocked":
             blocked.append((scn, r))
+    if mode == "mixed" and len(items) < max(3, len(scenarios) // 3) and not blocked:
+        raise vlib.Inconclusive("mixed configuration: only %d of %d scenarios ran without a scheduling gap > 25 ms "
+                                "(machine too loaded to judge completeness under a %d ms timeout)" % (
+                                    len(items), len(scenarios), MIXED_TIMEOUT_MS))
     # a scenario in which a WRITER was blocked is what the statement speaks about: look at those first
     blocked.sort(key=lambda x: not blocked_signature(mode, x[1])[1])
     nwb = len([1 for _, r in blocked if blocked_signature(mode, r)[1]])
@@ -782,18 +823,27 @@ def run(ctx):
     cov = {"mech": {}, "max_call_us": {}, "tv_states": 0, "tv_transitions": 0, "accepted": 0, "by_config": {},
            "samples": []}
     n = 500 if thorough else 120
+    n_mixed = 150 if thorough else 20
     for p in profiles(thorough):
         scripts = gen_scripts(ctx, p, n, "g_" + p["name"])
         if len(scripts) < n // 3:
             raise vlib.Inconclusive("only %d scripts generated for cast %s" % (len(scripts), p["name"]))
         scripts = vlib.sample(scripts, n, ctx.seed)
-        for mode in ("complete", "lossy"):
+        for mode in ("complete", "lossy", "mixed"):
+            if mode == "mixed" and not p.get("stalled_mixed"):
+                continue
+            sc = scripts
+            if mode == "mixed":
+                # scripts in which both stall-class streamers get opened, with writes left to stall
+                sc = [h for h in scripts if len({o["p"] for o in h if o["a"] == "sopen" and o["p"] in p["stalled_mixed"]}) >= 2
+                      and any(o["a"] == "sopen" and o["p"] not in p["stalled_mixed"] for o in h)]
+                sc = sc[:n_mixed]
             if not ctx.violations:   # a violating tree is reported at the first configuration that shows it
-                one_config(ctx, p, mode, scripts, rnd, "%s_%s" % (p["name"], mode[0]), thorough, cov)
+                one_config(ctx, p, mode, sc, rnd, "%s_%s" % (p["name"], mode[0]), thorough, cov)
     unreproduced(ctx)
     probe(ctx, profiles(False)[0], cov)
     m = cov["mech"]
-    need = ["writes", "recv", "sopen", "ssub", "sclose_graceful", "sclose_cancel", "quiesce", "unauthorized_writes"]
+    need = ["writes", "recv", "sopen", "ssub", "sclose_graceful", "sclose_cancel", "quiesce", "unauthorized_writes", "stall"]
     missing = [k for k in need if not m.get(k)]
     if missing and not ctx.violations:
         raise vlib.Inconclusive("mechanisms never exercised: %s" % missing)
@@ -806,7 +856,7 @@ def run(ctx):
         "traces_validated_against_impl": cov["accepted"],
         "samples": cov["samples"], "exhaustive": False,
         "design_runs": runs,
-        "trace_validation": {"states": cov["tv_states"], "transitions": cov["tv_transitions"], "scenarios": total, "undecided": cov.get("undecided", 0),
+        "trace_validation": {"states": cov["tv_states"], "transitions": cov["tv_transitions"], "scenarios": total, "undecided": cov.get("undecided", 0), "jittery_set_aside": cov.get("jittery", 0),
                              "by_config": cov["by_config"]},
         "mechanisms": m, "max_call_us": cov["max_call_us"],
         "probe_dbclose_open_writer": cov.get("probe_dbclose_open_writer"),
